@@ -469,7 +469,104 @@ class StmtMixin:
                     names.add(x.id)
         return names
 
+    def heap_snapshot(self, st):
+        """Identity snapshot of everything a loop body could modify on the heap / in ghost state."""
+        snap = {}
+        for oid, h in st.heap.items():
+            for f, v in h.fields.items():
+                snap[('f', oid, f)] = v
+            if h.meta:
+                for k in ('present', 'vals', 'len', 'arr', 'arrs', 'count', 'data', 'pos'):
+                    if k in h.meta:
+                        snap[('m', oid, k)] = h.meta[k]
+            if h.kind in ('list', 'dict', 'set') and h.items is not None:
+                snap[('i', oid)] = (len(h.items), tuple(h.items) if not isinstance(h.items, dict) else tuple(h.items.items()))
+        for k, v in st.ghost.items():
+            if (isinstance(k, tuple) and k and k[0] in ('stream', 'body', 'streamed')) or k == 'reported':
+                if isinstance(v, dict):
+                    for kk, vv in v.items():
+                        snap[('g', k, kk)] = vv
+                else:
+                    snap[('g', k)] = v
+        return snap
+
+    def same_value_identity(self, a, b):
+        if a is b:
+            return True
+        if is_sym(a) and is_sym(b):
+            return a.eq(b)
+        if isinstance(a, dict) and isinstance(b, dict):
+            return a.keys() == b.keys() and all(self.same_value_identity(a[k], b[k]) for k in a)
+        if isinstance(a, tuple) and isinstance(b, tuple):
+            return len(a) == len(b) and all(self.same_value_identity(x, y) for x, y in zip(a, b))
+        try:
+            return bool(a == b) if not is_sym(a) and not is_sym(b) else False
+        except Exception:
+            return False
+
+    def frame_obligations(self, lid, pre_snap, head_snap, s3, line):
+        """Soundness of the loop rule's havoc: anything the body changed must have been havocked at the
+        loop head (i.e. differ from its pre-loop value there); otherwise the summary would silently assume
+        the body leaves it alone."""
+        post = self.heap_snapshot(s3)
+        for key, hv in head_snap.items():
+            if key not in post:
+                continue
+            if self.same_value_identity(post[key], hv):
+                continue
+            if key in pre_snap and self.same_value_identity(pre_snap[key], hv):
+                # modified by the body but not havocked at the head
+                pv = post[key]
+                if is_sym(pv) and is_sym(hv) and pv.sort() == hv.sort() and not self.feasible(s3, pv != hv):
+                    continue   # provably unchanged (e.g. a store of the value already there)
+                self._frame_missing[key] = hv
+
     def exec_loop_with_invariant(self, s, st, spec, kind, iterable=None):
+        """Loop rule with automatic completion of the havoc set: if the body turns out to modify heap / ghost
+        state that the loop contract did not havoc at the loop head, the loop is processed again with that state
+        havocked as well (fresh values of the same sort).  So an edit that makes the body touch more state can
+        only make obligations harder, never unsound, and never fails by itself."""
+        extra = {}
+        for attempt in range(4):
+            mark = len(self.obligations)
+            base = st.fork()
+            self._frame_missing = {}
+            res = self._exec_loop_with_invariant(s, base, spec, kind, iterable, extra)
+            missing = {k: v for k, v in self._frame_missing.items() if k not in extra}
+            if not missing:
+                return res
+            del self.obligations[mark:]
+            extra.update(missing)
+        raise EngineError(f'loop at line {s.lineno}: havoc set does not stabilise')
+
+    def fresh_like(self, v, name):
+        if isinstance(v, bool) or (is_sym(v) and z3.is_bool(v)):
+            return z3.Bool(fresh_name(name))
+        if isinstance(v, int) or (is_sym(v) and z3.is_int(v)):
+            return z3.Int(fresh_name(name))
+        if isinstance(v, float) or (is_sym(v) and z3.is_real(v)):
+            return z3.Real(fresh_name(name))
+        if is_sym(v):
+            return z3.Const(fresh_name(name), v.sort())
+        raise EngineError(f'loop body modifies {name} (a {type(v).__name__}); give the loop contract a havoc for it')
+
+    def apply_extra_havoc(self, st, extra):
+        for key, sample in extra.items():
+            nm = 'hv_' + '_'.join(''.join(ch if ch.isalnum() else '_' for ch in str(x)) for x in key[1:] if not isinstance(x, tuple))
+            if key[0] == 'f':
+                st.heap[key[1]].fields[key[2]] = self.fresh_like(sample, nm)
+            elif key[0] == 'm':
+                st.heap[key[1]].meta[key[2]] = self.fresh_like(sample, nm)
+            elif key[0] == 'g' and len(key) == 3:
+                g = dict(st.ghost[key[1]])
+                g[key[2]] = self.fresh_like(sample, str(key[2]))
+                st.ghost[key[1]] = g
+            elif key[0] == 'g':
+                st.ghost[key[1]] = self.fresh_like(sample, str(key[1]))
+            else:
+                raise EngineError('loop body modifies a concrete container that the loop contract does not havoc')
+
+    def _exec_loop_with_invariant(self, s, st, spec, kind, iterable=None, extra_havoc=None):
         """Standard loop rule.  spec: LoopSpec(inv(ctx)->dict name->Bool, havoc(ctx) -> None,
         modifies_locals, item(ctx, index)...).  Generates: init, preservation (per body path),
         and continues after the loop with the invariant and the negated guard."""
@@ -483,6 +580,7 @@ class StmtMixin:
         # --- initiation
         pre = st.fork()
         ctx.pre = pre
+        pre_snap = self.heap_snapshot(st)
         for name, f in spec.invariant(ctx).items():
             self.oblige(st, f'{lid}.inv_init.{name}', f, kind='loop-init', line=line)
         # --- havoc
@@ -496,12 +594,14 @@ class StmtMixin:
         for name, t in spec.outer_local_types.items():
             st.stack[-1][name] = self.make_symbolic(t, name, st)
         spec.havoc_heap(ctx)
+        self.apply_extra_havoc(st, extra_havoc or {})
         if kind == 'for':
             ctx.havoc_index()
         ctx.st = st
         for name, f in spec.invariant(ctx).items():
             st.assume(f)
         trace_mark = len(st.trace)
+        head_snap = self.heap_snapshot(st)
         results = []
         alts = []
         alt_items = []
@@ -534,6 +634,7 @@ class StmtMixin:
                     for bo, s3 in self.exec_block(s.body, s2):
                         if bo[0] in ('normal', 'continue'):
                             c2 = ctx.after_iteration(s3)
+                            self.frame_obligations(lid, pre_snap, head_snap, s3, line)
                             for name, f in spec.invariant(c2).items():
                                 self.oblige(s3, f'{lid}.inv_preserved.{name}', f, kind='loop-preserve', line=line)
                             if spec.variant is not None:
